@@ -828,12 +828,13 @@ func TestRun(t *testing.T) {
 	// threshold-sensitive part only (update, verify, a few Alphabet- and committee-gated methods).
 	sizes := []int{1, 3}
 	if run.Tier == "thorough" {
-		sizes = []int{1, 3, 6, 7}
+		sizes = []int{1, 3, 5, 6, 7}
 	}
 	contracts := append(append([]string{}, repoContracts...), "neofs-vote")
 	var units []unit
 	if run.Tier != "thorough" {
 		units = append(units, unit{6, "*", "lite"})
+		units = append(units, unit{5, "*", "lite"}) // n ≡ 2 (mod 3): 2n/3+1 = 4 differs from floor(n/3)*2+1 = 3 = n/2+1
 	}
 	for _, n := range sizes {
 		for _, c := range contracts {
